@@ -2,7 +2,7 @@
 (***************************************************************************)
 (* Growth beyond the listed properties (DESIGN 10, item 6): assembly of a  *)
 (* control-format PDU (TSCF or NTSCF) that carries SEVERAL ACF messages of  *)
-(* MIXED kinds (full and brief ACF-CAN), the way the README tutorial and   *)
+(* MIXED kinds (full and brief ACF-CAN, GPC), the way the README tutorial and   *)
 (* the example talkers do it with the library:                             *)
 (*                                                                         *)
 (*   InitCtrl : initialise the control header at the start of the buffer   *)
@@ -59,7 +59,23 @@ AppendMsg(kind, id, fd, len, p) ==
          m2 == Build(m1, used, kind, id, fd, Payload(p, len))
      IN  /\ mem' = [mem EXCEPT ![1] = m2]
          /\ used' = used + Nat16(GetSem(m2, used, v, "acf_msg_length")) * 4     \* as the talkers do: read the length back
-  /\ msgs' = Append(msgs, [kind |-> kind, id |-> id, fd |-> fd, payload |-> Payload(p, len)])
+  /\ msgs' = Append(msgs, [kind |-> kind, id |-> id, fd |-> fd, payload |-> Payload(p, len), rawlen |-> len])
+  /\ n' = n + 1 /\ step' = [op |-> "append"]
+  /\ UNCHANGED <<hb, out, ctrl, phase, arena0>>
+
+\* a GPC message as the hello-world talker assembles it: header initialised, message id and length set through the
+\* library, payload and zero padding copied by the application (GPC has no pad field: the padded payload IS the payload)
+GpcIds == { V64(66), <<0, 0, 255, 238, 221, 204, 187, 170>> }            \* 48-bit message identifiers
+AppendGpc(id, len, p) ==
+  /\ phase = "open" /\ Len(msgs) < MaxMsgs
+  /\ LET padded == Payload(p, len) \o Fill(PadOf(len), 0)
+         m1 == InitSem(mem[1], used, "Gpc")
+         m2 == SetSem(m1, used, "Gpc", "gpc_msg_id", id)
+         m3 == SetSem(m2, used, "Gpc", "acf_msg_length", V64((HdrLen["Gpc"] + Len(padded)) \div 4))
+         m4 == Overlay(m3, used + HdrLen["Gpc"], padded)
+     IN  /\ mem' = [mem EXCEPT ![1] = m4]
+         /\ used' = used + Nat16(GetSem(m4, used, "Gpc", "acf_msg_length")) * 4
+         /\ msgs' = Append(msgs, [kind |-> "gpc", id |-> id, fd |-> 0, payload |-> padded, rawlen |-> len])
   /\ n' = n + 1 /\ step' = [op |-> "append"]
   /\ UNCHANGED <<hb, out, ctrl, phase, arena0>>
 
@@ -73,6 +89,7 @@ Close ==
 ANext ==
   \/ InitCtrl
   \/ \E kind \in {"full", "brief"} : \E id \in Ids : \E fd \in {0, 1} : \E len \in Lens : AppendMsg(kind, id, fd, len, (len + fd) % 2)
+  \/ \E id \in GpcIds : \E len \in Lens : AppendGpc(id, len, len % 2)
   \/ Close
 ASpec == AInit /\ [][ANext]_avars
 
@@ -84,7 +101,10 @@ WalkC(m, h, limit) ==
   IF h >= limit THEN << >>
   ELSE LET t  == Nat16(GetSem(m, h, "AcfCommon", "acf_msg_type"))
            ql == Nat16(GetSem(m, h, "AcfCommon", "acf_msg_length"))
-       IN  IF ql = 0 \/ t \notin {1, 2} \/ h + ql * 4 > limit THEN << [kind |-> "bad"] >>
+       IN  IF ql = 0 \/ t \notin {1, 2, 5} \/ h + ql * 4 > limit THEN << [kind |-> "bad"] >>
+           ELSE IF t = 5 THEN
+                << [kind |-> "gpc", id |-> GetSem(m, h, "Gpc", "gpc_msg_id"), fd |-> 0, eff |-> 0,
+                    payload |-> SubBytes(m, h + HdrLen["Gpc"], ql * 4 - HdrLen["Gpc"])] >> \o WalkC(m, h + ql * 4, limit)
            ELSE LET kind == IF t = 1 THEN "full" ELSE "brief"
                     v    == ViewOf(kind)
                     plen == ql * 4 - HdrLen[v] - Nat16(GetSem(m, h, v, "pad"))
@@ -94,9 +114,10 @@ WalkC(m, h, limit) ==
 
 Announced == Nat16(GetSem(mem[1], 0, ctrl, LenField(ctrl)))
 Expected == Mat([i \in 1..Len(msgs) |-> [kind |-> msgs[i].kind, id |-> msgs[i].id, fd |-> msgs[i].fd,
-                                         eff |-> IF Above7FF(msgs[i].id) THEN 1 ELSE 0, payload |-> msgs[i].payload]])
+                                         eff |-> IF msgs[i].kind # "gpc" /\ Above7FF(msgs[i].id) THEN 1 ELSE 0, payload |-> msgs[i].payload]])
 RECURSIVE SumLen(_)
-SumLen(s) == IF s = << >> THEN 0 ELSE MsgLen(Head(s).kind, Len(Head(s).payload)) + SumLen(Tail(s))
+MsgLenX(kind, len) == IF kind = "gpc" THEN HdrLen["Gpc"] + len ELSE MsgLen(kind, len)
+SumLen(s) == IF s = << >> THEN 0 ELSE MsgLenX(Head(s).kind, Len(Head(s).payload)) + SumLen(Tail(s))
 
 ParseInvertsAssembly == phase = "closed" => WalkC(mem[1], HdrLen[ctrl], HdrLen[ctrl] + Announced) = Expected
 LengthExact == phase = "closed" => (Announced = SumLen(msgs) /\ used = HdrLen[ctrl] + SumLen(msgs))
